@@ -6,6 +6,7 @@ import (
 	"fmt"
 	"math/big"
 	"math/rand"
+	"sort"
 	"strings"
 
 	"github.com/formancehq/go-libs/v5/pkg/storage/bun/paginate"
@@ -14,8 +15,12 @@ import (
 	"github.com/formancehq/go-libs/v5/pkg/types/time"
 
 	ledger "github.com/formancehq/ledger/internal"
+	ledgercontroller "github.com/formancehq/ledger/internal/controller/ledger"
+	systemcontroller "github.com/formancehq/ledger/internal/controller/system"
 	"github.com/formancehq/ledger/internal/storage/common"
+	storagedriver "github.com/formancehq/ledger/internal/storage/driver"
 	ledgerstore "github.com/formancehq/ledger/internal/storage/ledger"
+	systemstore "github.com/formancehq/ledger/internal/storage/system"
 
 	"github.com/formancehq/ledger/verifharness/core"
 	"github.com/formancehq/ledger/verifharness/pgshim"
@@ -26,13 +31,48 @@ import (
 func init() {
 	core.Register(&core.Check{
 		ID: "C19", Level: "exploration",
-		Rule: "(trace) the REAL storage driver + ledger store factory + every resource handler and write method run over a recording SQL driver with a scripted _system.ledgers table: random sequences of CreateLedger / OpenLedger over 1-3 ledgers sharing a bucket plus one alone, ledger creation mid-history, store handles kept across creations; once >=2 ledgers share the bucket every statement emitted by a store of ledger L must constrain `ledger = 'L'` in each (sub)select / update scope touching a bucket table and insert rows with ledger L (paren-aware scanner); nothing is asserted while L is alone. (controller) random interleaved histories on 2-3 ledgers of one bucket with overlapping accounts / references / idempotency keys through the real controller stack: an operation on one ledger never changes the snapshot of another. Distinct = (ledger layout, method, query shape); non-trivial = statement emitted while the bucket was shared",
-		Assumptions: []string{"that a scoped statement returns only that ledger's rows is Postgres' business; bucket DDL (migrations, AddLedger) is replaced by a fake bucket", seqAssume},
-		Run:  runC19,
+		Rule: "(trace) the REAL storage driver + ledger store factory + every resource handler and write method + the numscript runtimes (machine and interpreter, multi-source scripts) run over a recording SQL driver whose scripted _system.ledgers table EXECUTES the system store's statements (WHERE evaluated on rows with deleted_at): random sequences of CreateLedger / OpenLedger over 1-3 ledgers sharing a bucket plus one alone, ledger creation mid-history, store handles kept across creations; whenever the scripted table holds >=2 rows for the bucket (soft-deleted rows included: their data is still in the bucket tables) every statement emitted by a store of ledger L must IMPLY `ledger = 'L'` in each (sub)select / update scope touching a bucket table - the WHERE / inner-join ON condition is parsed with the SQL precedence (NOT > AND > OR, paren-aware) and the predicate must hold in every OR branch - and insert rows with ledger L; nothing is asserted while L's row is the only one of its bucket. GetBalances' select is answered by evaluating its WHERE on the accounts_volumes rows of ALL ledgers of the bucket (overlapping accounts, different amounts): the returned balances must be L's own, a multi-source script on L never takes more from a source than L's own balance. (softdel) A[,B] created and written in one bucket, bucket soft-deleted through the real system store (DeleteBucket), C created in the same bucket, every read / write / script on C and on the kept handles scanned as above; then RestoreBucket and reads on A/B/C; then HardDeleteBucket and a ledger really alone (negative control: unscoped statements are allowed and counted). (controller) random interleaved histories on 2-3 ledgers of one bucket with overlapping accounts / references / idempotency keys through the real controller stack: an operation on one ledger never changes the snapshot of another. Distinct = (loop, rows in bucket, method, query shape); non-trivial = statement emitted while the bucket held rows of >=2 ledgers",
+		Assumptions: []string{"that a statement whose condition implies ledger = 'L' returns / locks / changes only that ledger's rows is Postgres' business; bucket DDL (migrations, AddLedger, DROP SCHEMA) is replaced by a fake bucket", "a revert's balance check is exercised as the store-level GetBalances with >=2 (account, asset) pairs, not through the controller's RevertTransaction (the controller half runs on the in-memory store, which emits no SQL)", seqAssume},
+		Run:         runC19,
 	})
 }
 
-func c19RandomOp(ctx context.Context, rng *rand.Rand, st *ledgerstore.Store) string {
+// c19Op is what one random store operation did.
+type c19Op struct {
+	Method string
+	// GetBalances: the query and the answer
+	BalQuery ledgerstore.BalanceQuery
+	Bal      ledger.Balances
+	BalErr   error
+	// RunScript
+	Script     string
+	Runtime    string
+	Sources    []string
+	Asset      string
+	Amount     int64
+	Postings   ledger.Postings
+	ScriptErr  error
+	Committed  bool
+	CommitErr  error
+	BeforeBals map[string]*big.Int // ground truth of the bounded sources before the script
+}
+
+var (
+	c19Accounts = []string{"bank", "users:001", "users:002", "fees"}
+	c19Assets   = []string{"USD", "EUR/2"}
+)
+
+const c19NKinds = 24
+
+// c19GroundBalance is the ledger's own balance according to the rows the executed INSERTs wrote.
+func c19GroundBalance(tab *realstore.Tables, name, account, asset string) *big.Int {
+	if v, ok := tab.Volumes[[3]string{name, account, asset}]; ok {
+		return new(big.Int).Sub(v[0], v[1])
+	}
+	return new(big.Int)
+}
+
+func c19RandomOp(ctx context.Context, rng *rand.Rand, st *ledgerstore.Store, name string, tab *realstore.Tables, kind int) c19Op {
 	pit := realstore.GenPIT(rng)
 	expand := func(opts ...string) []string {
 		var out []string
@@ -44,166 +84,561 @@ func c19RandomOp(ctx context.Context, rng *rand.Rand, st *ledgerstore.Store) str
 		return out
 	}
 	order := pointer.For(paginate.Order(rng.Intn(2)))
-	switch k := rng.Intn(22); k {
+	if kind < 0 {
+		kind = rng.Intn(c19NKinds)
+	}
+	switch kind {
 	case 0:
 		q := common.ResourceQuery[any]{Builder: realstore.GenFilter(rng, "transactions", 3), PIT: pit, Expand: expand("volumes", "effectiveVolumes")}
 		_, _ = st.Transactions().Paginate(ctx, common.InitialPaginatedQuery[any]{PageSize: 5, Order: order, Options: q})
-		return "Transactions.Paginate"
+		return c19Op{Method: "Transactions.Paginate"}
 	case 1:
 		_, _ = st.Transactions().Count(ctx, common.ResourceQuery[any]{Builder: realstore.GenFilter(rng, "transactions", 2), PIT: pit})
-		return "Transactions.Count"
+		return c19Op{Method: "Transactions.Count"}
 	case 2:
 		_, _ = st.Transactions().GetOne(ctx, common.ResourceQuery[any]{Builder: realstore.GenFilter(rng, "transactions", 1), PIT: pit, Expand: expand("volumes", "effectiveVolumes")})
-		return "Transactions.GetOne"
+		return c19Op{Method: "Transactions.GetOne"}
 	case 3:
 		q := common.ResourceQuery[any]{Builder: realstore.GenFilter(rng, "accounts", 3), PIT: pit, Expand: expand("volumes", "effectiveVolumes")}
 		_, _ = st.Accounts().Paginate(ctx, common.InitialPaginatedQuery[any]{PageSize: 5, Order: order, Options: q})
-		return "Accounts.Paginate"
+		return c19Op{Method: "Accounts.Paginate"}
 	case 4:
 		_, _ = st.Accounts().Count(ctx, common.ResourceQuery[any]{Builder: realstore.GenFilter(rng, "accounts", 2), PIT: pit})
-		return "Accounts.Count"
+		return c19Op{Method: "Accounts.Count"}
 	case 5:
 		_, _ = st.Accounts().GetOne(ctx, common.ResourceQuery[any]{Builder: realstore.GenFilter(rng, "accounts", 1), PIT: pit, Expand: expand("volumes", "effectiveVolumes")})
-		return "Accounts.GetOne"
+		return c19Op{Method: "Accounts.GetOne"}
 	case 6:
 		q := common.ResourceQuery[ledger.GetVolumesOptions]{Builder: realstore.GenFilter(rng, "volumes", 3), PIT: pit, OOT: realstore.GenPIT(rng),
 			Opts: ledger.GetVolumesOptions{UseInsertionDate: rng.Intn(2) == 0, GroupLvl: rng.Intn(3)}}
 		_, _ = st.Volumes().Paginate(ctx, common.InitialPaginatedQuery[ledger.GetVolumesOptions]{PageSize: 5, Options: q})
-		return "Volumes.Paginate"
+		return c19Op{Method: "Volumes.Paginate"}
 	case 7:
 		q := common.ResourceQuery[ledger.GetAggregatedVolumesOptions]{Builder: realstore.GenFilter(rng, "aggregated", 3), PIT: pit, Opts: ledger.GetAggregatedVolumesOptions{UseInsertionDate: rng.Intn(2) == 0}}
 		_, _ = st.AggregatedVolumes().GetOne(ctx, q)
-		return "AggregatedVolumes.GetOne"
+		return c19Op{Method: "AggregatedVolumes.GetOne"}
 	case 8:
 		_, _ = st.Logs().Paginate(ctx, common.InitialPaginatedQuery[any]{PageSize: 5, Order: order, Options: common.ResourceQuery[any]{Builder: realstore.GenFilter(rng, "logs", 2)}})
-		return "Logs.Paginate"
+		return c19Op{Method: "Logs.Paginate"}
 	case 9:
 		_, _ = st.Schemas().Paginate(ctx, common.InitialPaginatedQuery[any]{PageSize: 5})
-		return "Schemas.Paginate"
-	case 10:
-		_, _ = st.GetBalances(ctx, ledgerstore.BalanceQuery{"bank": {"USD", "EUR/2"}, "users:001": {"USD"}})
-		return "GetBalances"
+		return c19Op{Method: "Schemas.Paginate"}
+	case 10, 22:
+		// 1..4 accounts x 1..2 assets: the balance lookup of a multi-source transaction / of the
+		// revert of a transaction with several destinations
+		q := ledgerstore.BalanceQuery{}
+		perm := rng.Perm(len(c19Accounts))
+		nAcc := 1 + rng.Intn(len(c19Accounts))
+		if kind == 22 && nAcc < 2 {
+			nAcc = 2
+		}
+		for _, i := range perm[:nAcc] {
+			assets := []string{c19Assets[rng.Intn(2)]}
+			if rng.Intn(3) == 0 {
+				assets = []string{"USD", "EUR/2"}
+			}
+			q[c19Accounts[i]] = assets
+		}
+		bal, err := st.GetBalances(ctx, q)
+		return c19Op{Method: "GetBalances", BalQuery: q, Bal: bal, BalErr: err}
 	case 11:
-		tx := ledger.NewTransaction().WithPostings(ledger.NewPosting("world", "bank", "USD", big.NewInt(10)), ledger.NewPosting("bank", "users:001", "USD", big.NewInt(3))).WithReference("r1")
+		// funds only come from world and bank never gives more than it just received: no
+		// account but world ever goes negative
+		a := int64(1 + rng.Intn(500))
+		b := int64(rng.Intn(int(a) + 1))
+		ps := []ledger.Posting{ledger.NewPosting("world", "bank", "USD", big.NewInt(a))}
+		if b > 0 {
+			ps = append(ps, ledger.NewPosting("bank", "users:001", "USD", big.NewInt(b)))
+		}
+		if rng.Intn(2) == 0 {
+			ps = append(ps, ledger.NewPosting("world", c19Accounts[rng.Intn(len(c19Accounts))], c19Assets[rng.Intn(2)], big.NewInt(int64(1+rng.Intn(500)))))
+		}
+		tx := ledger.NewTransaction().WithPostings(ps...).WithReference("r1")
 		_ = st.CommitTransaction(ctx, &tx)
-		return "CommitTransaction"
+		return c19Op{Method: "CommitTransaction"}
 	case 12:
 		_ = st.UpsertAccounts(ctx, ledger.AccountWithDefaultMetadata{Account: &ledger.Account{Address: "bank", Metadata: metadata.Metadata{"k": "v"}}})
-		return "UpsertAccounts"
+		return c19Op{Method: "UpsertAccounts"}
 	case 13:
 		l := ledger.NewLog(ledger.SavedMetadata{TargetType: ledger.MetaTargetTypeAccount, TargetID: "bank", Metadata: metadata.Metadata{"k": "v"}})
 		l.IdempotencyKey = "ik"
 		_ = st.InsertLog(ctx, &l)
-		return "InsertLog"
+		return c19Op{Method: "InsertLog"}
 	case 14:
 		_, _, _ = st.RevertTransaction(ctx, 1, time.Time{})
-		return "RevertTransaction"
+		return c19Op{Method: "RevertTransaction"}
 	case 15:
 		_, _, _ = st.UpdateTransactionMetadata(ctx, 1, metadata.Metadata{"k": "v"}, time.Time{})
-		return "UpdateTransactionMetadata"
+		return c19Op{Method: "UpdateTransactionMetadata"}
 	case 16:
 		_, _, _ = st.DeleteTransactionMetadata(ctx, 1, "k", time.Time{})
-		return "DeleteTransactionMetadata"
+		return c19Op{Method: "DeleteTransactionMetadata"}
 	case 17:
 		_ = st.UpdateAccountsMetadata(ctx, map[string]metadata.Metadata{"bank": {"k": "v"}}, time.Now())
-		return "UpdateAccountsMetadata"
+		return c19Op{Method: "UpdateAccountsMetadata"}
 	case 18:
 		_ = st.DeleteAccountMetadata(ctx, "bank", "k")
-		return "DeleteAccountMetadata"
+		return c19Op{Method: "DeleteAccountMetadata"}
 	case 19:
 		_, _ = st.ReadLogWithIdempotencyKey(ctx, "ik")
-		return "ReadLogWithIdempotencyKey"
+		return c19Op{Method: "ReadLogWithIdempotencyKey"}
 	case 20:
 		_, _ = st.FindSchema(ctx, "v1")
 		_, _ = st.FindLatestSchemaVersion(ctx)
-		return "FindSchema"
-	default:
+		return c19Op{Method: "FindSchema"}
+	case 21:
 		sc := ledger.Schema{Version: "v1"}
 		_ = st.InsertSchema(ctx, &sc)
-		return "InsertSchema"
+		return c19Op{Method: "InsertSchema"}
+	default:
+		return c19RunScript(ctx, rng, st, name, tab)
+	}
+}
+
+// c19RunScript runs a multi-source numscript through the real runtimes on the real store
+// (balance lookup = one GetBalances over several (account, asset) pairs) and commits the
+// resulting postings.
+func c19RunScript(ctx context.Context, rng *rand.Rand, st *ledgerstore.Store, name string, tab *realstore.Tables) c19Op {
+	op := c19Op{Method: "RunScript"}
+	perm := rng.Perm(len(c19Accounts))
+	nSrc := 2 + rng.Intn(2)
+	op.Asset = c19Assets[rng.Intn(2)]
+	total := new(big.Int)
+	op.BeforeBals = map[string]*big.Int{}
+	for _, i := range perm[:nSrc] {
+		a := c19Accounts[i]
+		op.Sources = append(op.Sources, a)
+		op.BeforeBals[a] = c19GroundBalance(tab, name, a, op.Asset)
+		total.Add(total, op.BeforeBals[a])
+	}
+	// amount around what the ledger really owns on these accounts
+	switch t := total.Int64(); rng.Intn(4) {
+	case 0:
+		op.Amount = t + 1 + int64(rng.Intn(50))
+	case 1:
+		op.Amount = t
+	default:
+		op.Amount = 1 + rng.Int63n(t+1)
+	}
+	if op.Amount <= 0 {
+		op.Amount = 1
+	}
+	var b strings.Builder
+	fmt.Fprintf(&b, "send [%s %d] (\n  source = {\n", op.Asset, op.Amount)
+	for _, s := range op.Sources {
+		fmt.Fprintf(&b, "    @%s\n", s)
+	}
+	b.WriteString("  }\n  destination = @sink\n)\n")
+	op.Script = b.String()
+	var parser ledgercontroller.NumscriptParser
+	if rng.Intn(2) == 0 {
+		op.Runtime = "machine"
+		parser = ledgercontroller.NewDefaultNumscriptParser()
+	} else {
+		op.Runtime = "interpreter"
+		parser = ledgercontroller.NewInterpreterNumscriptParser(nil)
+	}
+	op.Method = "RunScript." + op.Runtime
+	rt, err := parser.Parse(op.Script)
+	if err != nil {
+		op.ScriptErr = fmt.Errorf("parse: %w", err)
+		return op
+	}
+	res, err := rt.Execute(ctx, systemcontroller.NewDefaultStoreAdapter(st), map[string]string{})
+	if err != nil {
+		op.ScriptErr = err
+		return op
+	}
+	op.Postings = res.Postings
+	if len(res.Postings) > 0 {
+		tx := ledger.NewTransaction().WithPostings(res.Postings...)
+		op.CommitErr = st.CommitTransaction(ctx, &tx)
+		op.Committed = op.CommitErr == nil
+	}
+	return op
+}
+
+func c19ErrClass(err error) string {
+	if err == nil {
+		return "ok"
+	}
+	s := strings.ToLower(err.Error())
+	switch {
+	case strings.Contains(s, "insufficient") || strings.Contains(s, "not enough funds") || strings.Contains(s, "missing funds") || strings.Contains(s, "missingfunds"):
+		return "insufficient-funds"
+	case strings.HasPrefix(s, "parse:"):
+		return "parse"
+	}
+	if len(s) > 60 {
+		s = s[:60]
+	}
+	return "other:" + s
+}
+
+// c19Session is one scripted database with the real driver on top.
+type c19Session struct {
+	c    *core.Case
+	r    *core.Run
+	loop string
+	db   *realstore.SysDB
+	tab  *realstore.Tables
+	d    *storagedriver.Driver
+	ctx  context.Context
+	// steps is the reproducible history of the case
+	steps []string
+}
+
+func c19NewSession(c *core.Case, r *core.Run, loop string) *c19Session {
+	s := &c19Session{c: c, r: r, loop: loop, ctx: context.Background()}
+	s.db = realstore.NewSysDB()
+	s.tab = realstore.NewTables()
+	s.db.Responder = s.tab.Respond
+	s.d = s.db.NewDriver()
+	return s
+}
+
+func (s *c19Session) create(name, bucket string) *ledgerstore.Store {
+	l := ledger.MustNewWithDefault(name)
+	l.Bucket = bucket
+	st, err := s.d.CreateLedger(s.ctx, &l)
+	if err != nil {
+		s.r.Inconclusive("CreateLedger over pgshim failed: " + err.Error())
+		return nil
+	}
+	s.steps = append(s.steps, "create "+name+"@"+bucket)
+	return st
+}
+
+// run performs one operation on a store of ledger `name` and judges every statement it
+// emitted. phase names the situation for the violation signature ("" = plain shared bucket).
+func (s *c19Session) run(rng *rand.Rand, st *ledgerstore.Store, name, bucket, phase string, kind int) {
+	c, r := s.c, s.r
+	s.db.Shim.ResetLog()
+	op := c19RandomOp(s.ctx, rng, st, name, s.tab, kind)
+	method := op.Method
+	// ground truth, independent of any statement of the code under test: the rows of the
+	// scripted _system.ledgers table naming this bucket, soft-deleted ones included
+	rows, live := s.db.BucketRows(bucket)
+	shared := rows >= 2
+	s.steps = append(s.steps, fmt.Sprintf("%s on %s (rows in bucket %d, live %d)", method, name, rows, live))
+	r.Seen("methods", method)
+	r.Seen("situations", fmt.Sprintf("%s|%s|rows=%d|live=%d", s.loop, phase, rows, live))
+	unscoped := 0
+	for _, stmt := range s.db.Shim.Log() {
+		if stmt.Kind != pgshim.KExec && stmt.Kind != pgshim.KQuery {
+			continue
+		}
+		r.Count("statements_recorded", 1)
+		rep := realstore.ScanScopedReport(stmt.SQL, bucket, name)
+		r.Count("relations_examined", int64(rep.Relations))
+		r.Count("conditions_parsed", int64(rep.Conditions))
+		r.Count("or_branches_examined", int64(rep.OrBranches))
+		for _, sh := range rep.DisjunctShapes {
+			r.Seen("disjunct_structures", sh)
+			r.Count("conditions_with_ledger_predicate_below_an_or", 1)
+		}
+		if !shared {
+			if len(rep.Problems) > 0 {
+				unscoped++
+			}
+			continue
+		}
+		r.Count("statements_checked_while_shared", 1)
+		if phase != "" {
+			r.Count("statements_checked_"+phase, 1)
+		}
+		if len(rep.Problems) == 0 {
+			continue
+		}
+		sig := "C19/unscoped-statement-in-shared-bucket:" + method
+		for _, p := range rep.Problems {
+			if p.Kind == realstore.ProblemDisjunct {
+				sig = "C19/unscoped-disjunct:" + method
+			}
+		}
+		if phase != "" && !strings.HasPrefix(sig, "C19/unscoped-disjunct:") {
+			sig = "C19/unscoped-statement-" + phase + ":" + method
+		}
+		c.Violation(sig, map[string]any{"ledger": name, "bucket": bucket, "rows_of_bucket_in_system_ledgers": rows, "live_rows": live, "steps": s.steps, "sql": stmt.SQL, "problems": rep.Texts()})
+	}
+	if !shared && unscoped > 0 {
+		r.Count("unscoped_statements_while_truly_alone", int64(unscoped))
+	}
+	// the balances a ledger reads are its own
+	if op.BalQuery != nil {
+		pairs := 0
+		for _, as := range op.BalQuery {
+			pairs += len(as)
+		}
+		r.Seen("getbalances_pairs", fmt.Sprint(pairs))
+		if pairs >= 2 && shared {
+			r.Count("multi_pair_balance_reads_while_shared", 1)
+		}
+		if op.BalErr == nil {
+			accs := make([]string, 0, len(op.BalQuery))
+			for a := range op.BalQuery {
+				accs = append(accs, a)
+			}
+			sort.Strings(accs)
+			for _, a := range accs {
+				for _, as := range op.BalQuery[a] {
+					want := c19GroundBalance(s.tab, name, a, as)
+					got := op.Bal[a][as]
+					r.Count("balances_compared", 1)
+					if got == nil || got.Cmp(want) != 0 {
+						c.Violation("C19/balance-read-is-not-the-ledgers-own:GetBalances", map[string]any{"ledger": name, "bucket": bucket, "account": a, "asset": as, "got": fmt.Sprint(got), "own": want.String(), "query": op.BalQuery, "pairs": pairs, "steps": s.steps, "volumes_rows": c19DumpVolumes(s.tab)})
+					}
+				}
+			}
+		} else {
+			r.Seen("getbalances_errors", c19ErrClass(op.BalErr))
+		}
+	}
+	if op.Script != "" {
+		r.Seen("script_outcomes", op.Runtime+"|"+c19ErrClass(op.ScriptErr))
+		r.Count("scripts_run", 1)
+		if shared {
+			r.Count("scripts_run_while_shared", 1)
+		}
+		total := new(big.Int)
+		for _, v := range op.BeforeBals {
+			total.Add(total, v)
+		}
+		detail := map[string]any{"ledger": name, "bucket": bucket, "script": op.Script, "runtime": op.Runtime, "own_balances_before": fmt.Sprint(op.BeforeBals), "postings": op.Postings, "error": fmt.Sprint(op.ScriptErr), "steps": s.steps, "volumes_rows": c19DumpVolumes(s.tab)}
+		switch cls := c19ErrClass(op.ScriptErr); {
+		case cls == "ok":
+			taken := map[string]*big.Int{}
+			for _, p := range op.Postings {
+				if taken[p.Source] == nil {
+					taken[p.Source] = new(big.Int)
+				}
+				taken[p.Source].Add(taken[p.Source], p.Amount)
+			}
+			for src, amt := range taken {
+				own, bounded := op.BeforeBals[src]
+				if bounded && amt.Cmp(own) > 0 {
+					detail["source"] = src
+					c.Violation("C19/script-took-more-than-the-ledgers-own-balance:"+op.Runtime, detail)
+				}
+			}
+		case cls == "insufficient-funds":
+			if total.Cmp(big.NewInt(op.Amount)) >= 0 {
+				c.Violation("C19/script-refused-although-the-ledgers-own-funds-suffice:"+op.Runtime, detail)
+			}
+		}
+	}
+	s.r.Eval(fmt.Sprintf("%s|%s|%d|%s|%v", s.loop, phase, rows, method, shared), shared)
+}
+
+func c19DumpVolumes(tab *realstore.Tables) []string {
+	var out []string
+	for k, v := range tab.Volumes {
+		out = append(out, fmt.Sprintf("%s/%s/%s in=%s out=%s", k[0], k[1], k[2], v[0], v[1]))
+	}
+	sort.Strings(out)
+	return out
+}
+
+func (s *c19Session) finish() {
+	if s.tab.BalanceFallbacks > 0 {
+		s.r.Count("getbalances_where_not_evaluable", int64(s.tab.BalanceFallbacks))
+	}
+	s.r.Count("getbalances_where_evaluated_on_all_rows_of_bucket", int64(s.tab.BalanceSelects))
+	if len(s.db.Unknown) > 0 {
+		s.r.Inconclusive("scripted _system.ledgers could not execute: " + s.db.Unknown[0])
 	}
 }
 
 func runC19(r *core.Run) {
 	n := r.N(400, 8000)
 	r.Floor("statements_checked_while_shared", 1000)
+	r.Floor("statements_checked_after-bucket-soft-delete", 500)
+	r.Floor("multi_pair_balance_reads_while_shared", 100)
+	r.Floor("conditions_with_ledger_predicate_below_an_or", 100)
 	r.ForEach("trace", n, 0, func(c *core.Case) {
 		rng := c.Rng
-		db := realstore.NewSysDB()
-		defer db.Close()
-		db.Responder = realstore.NewTables().Respond
-		d := db.NewDriver()
-		ctx := context.Background()
+		s := c19NewSession(c, r, "trace")
+		defer s.db.Close()
 		type handle struct {
 			name, bucket string
 			st           *ledgerstore.Store
 		}
 		var handles []handle
-		inBucket := map[string]int{}
 		created := map[string]string{}
 		names := []string{"la", "lb", "lc"}
-		var steps []string
-		create := func(name, bucket string) {
-			l := ledger.MustNewWithDefault(name)
-			l.Bucket = bucket
-			st, err := d.CreateLedger(ctx, &l)
-			if err != nil {
-				c.R.Inconclusive("CreateLedger over pgshim failed: " + err.Error())
-				return
+		create := func(name, bucket string) bool {
+			st := s.create(name, bucket)
+			if st == nil {
+				return false
 			}
 			created[name] = bucket
-			inBucket[bucket]++
 			handles = append(handles, handle{name, bucket, st})
-			steps = append(steps, "create "+name+"@"+bucket)
+			return true
 		}
-		create("ls", "solo")
-		create(names[0], "shared")
+		if !create("ls", "solo") || !create(names[0], "shared") {
+			return
+		}
 		nSteps := 12 + rng.Intn(20)
 		for i := 0; i < nSteps; i++ {
 			switch x := rng.Intn(10); {
 			case x == 0 && len(created) < 4:
 				for _, nm := range names {
 					if _, ok := created[nm]; !ok {
-						create(nm, "shared")
+						if !create(nm, "shared") {
+							return
+						}
 						break
 					}
 				}
 			case x == 1:
 				// reopen an existing ledger
 				h := handles[rng.Intn(len(handles))]
-				st, _, err := d.OpenLedger(ctx, h.name)
+				st, _, err := s.d.OpenLedger(s.ctx, h.name)
 				if err != nil {
 					c.R.Inconclusive("OpenLedger over pgshim failed: " + err.Error())
 					return
 				}
 				handles = append(handles, handle{h.name, h.bucket, st})
-				steps = append(steps, "open "+h.name)
+				s.steps = append(s.steps, "open "+h.name)
 			default:
 				h := handles[rng.Intn(len(handles))]
-				db.Shim.ResetLog()
-				method := c19RandomOp(ctx, rng, h.st)
-				shared := inBucket[h.bucket] >= 2
-				r.Seen("methods", method)
-				for _, stmt := range db.Shim.Log() {
-					if stmt.Kind != pgshim.KExec && stmt.Kind != pgshim.KQuery {
-						continue
-					}
-					r.Count("statements_recorded", 1)
-					if !shared {
-						continue
-					}
-					r.Count("statements_checked_while_shared", 1)
-					if probs := realstore.ScanScoped(stmt.SQL, h.bucket, h.name); len(probs) > 0 {
-						c.Violation("C19/unscoped-statement-in-shared-bucket:"+method, map[string]any{"ledger": h.name, "bucket": h.bucket, "ledgers_in_bucket": inBucket[h.bucket], "steps": steps, "sql": stmt.SQL, "problems": probs})
-					}
-				}
-				r.Eval(fmt.Sprintf("%d|%s|%v", inBucket[h.bucket], method, shared), shared)
+				s.run(rng, h.st, h.name, h.bucket, "", -1)
 			}
 		}
+		s.finish()
 		if c.Index < 2 {
-			r.Sample(map[string]any{"steps": steps})
+			r.Sample(map[string]any{"steps": s.steps})
 		}
 	})
+
+	// soft-deleted bucket: the deleted ledgers' rows are still in the bucket tables
+	r.ForEach("softdel", r.N(150, 2500), 0, func(c *core.Case) {
+		rng := c.Rng
+		s := c19NewSession(c, r, "softdel")
+		defer s.db.Close()
+		sys := systemstore.New(s.db.DB)
+		const bucket = "shared"
+		type handle struct {
+			name string
+			st   *ledgerstore.Store
+		}
+		var old []handle
+		nOld := 1 + rng.Intn(2)
+		for _, nm := range []string{"la", "lb"}[:nOld] {
+			st := s.create(nm, bucket)
+			if st == nil {
+				return
+			}
+			old = append(old, handle{nm, st})
+		}
+		if s.create("ls", "solo") == nil {
+			return
+		}
+		// write on all of them: overlapping accounts, different amounts
+		for _, h := range old {
+			for k := 0; k < 1+rng.Intn(3); k++ {
+				s.run(rng, h.st, h.name, bucket, "", 11)
+			}
+			for k := 0; k < rng.Intn(4); k++ {
+				s.run(rng, h.st, h.name, bucket, "", -1)
+			}
+		}
+		if err := sys.DeleteBucket(s.ctx, bucket); err != nil {
+			r.Inconclusive("DeleteBucket over pgshim failed: " + err.Error())
+			return
+		}
+		s.steps = append(s.steps, "DeleteBucket "+bucket)
+		if rows, live := s.db.BucketRows(bucket); rows != nOld || live != 0 {
+			r.Inconclusive(fmt.Sprintf("scripted DeleteBucket left rows=%d live=%d, want %d/0", rows, live, nOld))
+			return
+		}
+		r.Count("buckets_soft_deleted", 1)
+		// a soft-deleted ledger cannot be opened any more, its rows stay
+		if _, _, err := s.d.OpenLedger(s.ctx, old[0].name); err == nil {
+			r.Count("deleted_ledger_still_opens", 1)
+		} else {
+			r.Count("deleted_ledger_open_refused", 1)
+		}
+		fresh := s.create("lc", bucket)
+		if fresh == nil {
+			return
+		}
+		const phase = "after-bucket-soft-delete"
+		// every kind of read / write / script on the new ledger, in a random order, then more
+		for _, k := range rng.Perm(c19NKinds) {
+			s.run(rng, fresh, "lc", bucket, phase, k)
+		}
+		if st, _, err := s.d.OpenLedger(s.ctx, "lc"); err == nil {
+			s.steps = append(s.steps, "open lc")
+			for k := 0; k < 6; k++ {
+				s.run(rng, st, "lc", bucket, phase, -1)
+			}
+		} else {
+			r.Inconclusive("OpenLedger(lc) over pgshim failed: " + err.Error())
+			return
+		}
+		// handles of the deleted ledgers kept by in-flight requests
+		for _, h := range old {
+			for k := 0; k < 3; k++ {
+				s.run(rng, h.st, h.name, bucket, phase, -1)
+			}
+		}
+		// restore
+		if rng.Intn(3) != 0 {
+			if err := sys.RestoreBucket(s.ctx, bucket); err != nil {
+				r.Inconclusive("RestoreBucket over pgshim failed: " + err.Error())
+				return
+			}
+			s.steps = append(s.steps, "RestoreBucket "+bucket)
+			// RestoreBucket restores every deleted row of the bucket; lc was never deleted
+			if rows, live := s.db.BucketRows(bucket); rows != nOld+1 || live != nOld+1 {
+				r.Inconclusive(fmt.Sprintf("scripted RestoreBucket left rows=%d live=%d", rows, live))
+				return
+			}
+			r.Count("buckets_restored", 1)
+			for _, nm := range append([]string{"lc"}, []string{"la", "lb"}[:nOld]...) {
+				st, _, err := s.d.OpenLedger(s.ctx, nm)
+				if err != nil {
+					c.Violation("C19/restored-ledger-cannot-be-opened", map[string]any{"ledger": nm, "error": err.Error(), "steps": s.steps})
+					continue
+				}
+				s.steps = append(s.steps, "open "+nm)
+				for k := 0; k < 8; k++ {
+					s.run(rng, st, nm, bucket, "after-bucket-restore", -1)
+				}
+				s.run(rng, st, nm, bucket, "after-bucket-restore", 22)
+			}
+		} else {
+			// hard delete (retention worker): the rows and the bucket's tables are gone, a ledger
+			// created there afterwards is really alone - negative control of the ground truth
+			if err := sys.DeleteBucket(s.ctx, bucket); err != nil {
+				r.Inconclusive("DeleteBucket over pgshim failed: " + err.Error())
+				return
+			}
+			if err := sys.HardDeleteBucket(s.ctx, bucket); err != nil {
+				r.Inconclusive("HardDeleteBucket over pgshim failed: " + err.Error())
+				return
+			}
+			s.steps = append(s.steps, "DeleteBucket+HardDeleteBucket "+bucket)
+			if rows, _ := s.db.BucketRows(bucket); rows != 0 {
+				r.Inconclusive("scripted HardDeleteBucket left rows")
+				return
+			}
+			r.Count("buckets_hard_deleted", 1)
+			st := s.create("ld", bucket)
+			if st == nil {
+				return
+			}
+			for k := 0; k < 10; k++ {
+				s.run(rng, st, "ld", bucket, "after-bucket-hard-delete", -1)
+			}
+		}
+		s.finish()
+		if c.Index < 2 {
+			r.Sample(map[string]any{"steps": s.steps})
+		}
+	})
+
 	// controller half
 	m := r.N(80, 1500)
 	r.ForEach("ctrl", m, 0, func(c *core.Case) {
